@@ -166,4 +166,13 @@ def r17_5(ctx):
     return o
 
 
-RULES = [r17_1, r17_2, r17_3, r17_4, r17_5]
+def r17_6(ctx):
+    from rules import C10
+    o = C10.r10_1(ctx)
+    o.rule = "R17.6"
+    o.text = ("box, vertices and signed length of a curve are computed from its control points as they are now: nothing "
+              "cached or memoised survives move / rotate / scale / a change of the segments (same analysis as R10.1)")
+    return o
+
+
+RULES = [r17_1, r17_2, r17_3, r17_4, r17_5, r17_6]
